@@ -555,6 +555,9 @@ func IsQuadTree(tms tms20.TileMatrixSet) error {
 		if len(tm.VariableMatrixWidths) != 0 {
 			return errors.New("variable matrix widths are not supported: " + tm.ID)
 		}
+		if previousTM == nil && tmID != 0 {
+			return errors.New("tile matrix IDs should be a range with step 1 starting with 0")
+		}
 		if previousTM != nil {
 			if tmID != previousTMID+1 {
 				return errors.New("tile matrix IDs should be a range with step 1 starting with 0")
